@@ -27,6 +27,7 @@ const (
 	SiteExeRead                // unexports2: one ReadAt on the executable
 	SiteMprotect               // fault site: one mprotect call (key = page, arg = prot)
 	SiteMmap                   // fault site: anonymous RWX mmap
+	SiteLogConsole             // logger: a console line is about to be written (inside debug wrappers)
 	SiteLockAcquired           // emitted by the lock model itself
 	SiteLockReleased           // emitted by the lock model itself
 	NumSites
@@ -36,7 +37,7 @@ const (
 var SiteNames = [NumSites]string{
 	"none", "patch.replace.registered", "patch.replace.done", "mem.write.rwx", "mem.write.copied",
 	"mem.write.done", "stub.holder.loaded", "matcher.result.loaded", "iface.stub.made", "iface.applied",
-	"exe.read", "mprotect", "mmap", "lock.acquired", "lock.released",
+	"exe.read", "mprotect", "mmap", "log.console", "lock.acquired", "lock.released",
 }
 
 // LockNames maps lock identifiers to readable names.
